@@ -223,9 +223,14 @@ pub fn evolve(s: &Schema, sh: &Shape, x: &TVal, rng: &mut Rng) -> (TVal, Vec<Str
                     if !fs.is_empty() {
                         let at = rng.usize_below(fs.len());
                         let old = fs[at].1.tt();
+                        // the new wire type differs from the one the reader declares for this id
+                        // (a second retype of the same field must not come back to a container of
+                        // the declared kind with other element types: that is not a wire-type
+                        // difference at field level and outside what the property promises)
+                        let declared = fields.iter().find(|f| f.id == fs[at].0).map(|f| s.tt(&f.ty));
                         let tt = loop {
                             let t = *rng.pick(&ALL_TT);
-                            if t != old {
+                            if t != old && Some(t) != declared {
                                 break t;
                             }
                         };
@@ -262,9 +267,10 @@ pub fn evolve(s: &Schema, sh: &Shape, x: &TVal, rng: &mut Rng) -> (TVal, Vec<Str
                 (7, true) => {
                     if let Some(first) = fs.first_mut() {
                         let old = first.1.tt();
+                        let declared = fields.iter().find(|f| f.id == first.0).map(|f| s.tt(&f.ty));
                         let tt = loop {
                             let t = *rng.pick(&ALL_TT);
-                            if t != old {
+                            if t != old && Some(t) != declared {
                                 break t;
                             }
                         };
@@ -458,5 +464,59 @@ fn reaches_list_of_heap_inner(s: &Schema, sh: &Shape, struct_owns_heap: &dyn Fn(
     match sh {
         Shape::Def(i) => go(s, &Ty::Ref(*i), &mut vec![], struct_owns_heap),
         _ => s.target_fields(sh).0.iter().any(|f| go(s, &f.ty, &mut vec![], struct_owns_heap)),
+    }
+}
+
+/// struct / exception definitions named directly (not through a container or a
+/// typedef) as a method argument, return or throws type: pilota-build emits a
+/// different sync decoder for these when `keep_unknown_fields` is on
+pub fn arg_defs(s: &Schema) -> Vec<usize> {
+    let mut out = vec![];
+    let mut add = |ty: &Ty| {
+        if let Ty::Ref(d) = ty {
+            if matches!(s.defs[*d].kind, Kind::Struct | Kind::Exception) && !out.contains(d) {
+                out.push(*d);
+            }
+        }
+    };
+    for svc in &s.services {
+        for m in &svc.methods {
+            if let Some(r) = &m.ret {
+                add(r);
+            }
+            for f in m.args.iter().chain(m.throws.iter()) {
+                add(&f.ty);
+            }
+        }
+    }
+    out
+}
+
+/// does decoding a value of this shape run the decoder of a definition in `arg_defs`?
+pub fn reaches_arg_def(s: &Schema, sh: &Shape) -> bool {
+    let args = arg_defs(s);
+    if args.is_empty() {
+        return false;
+    }
+    fn go(s: &Schema, ty: &Ty, seen: &mut Vec<usize>, args: &[usize]) -> bool {
+        match s.resolve(ty) {
+            Ty::List(t) | Ty::Set(t) => go(s, t, seen, args),
+            Ty::Map(k, v) => go(s, k, seen, args) || go(s, v, seen, args),
+            Ty::Ref(d) => {
+                if args.contains(d) {
+                    return true;
+                }
+                if seen.contains(d) {
+                    return false;
+                }
+                seen.push(*d);
+                s.defs[*d].fields.iter().any(|f| go(s, &f.ty, seen, args))
+            }
+            _ => false,
+        }
+    }
+    match sh {
+        Shape::Def(i) => go(s, &Ty::Ref(*i), &mut vec![], &args),
+        _ => s.target_fields(sh).0.iter().any(|f| go(s, &f.ty, &mut vec![], &args)),
     }
 }
